@@ -20,6 +20,21 @@ CHECKS = {
         note=TB + " Partial: the counts fed to the gate come from eval.c, which is covered by C03's correspondence, not by this proof; imported modules' shadow blocks are not generated yet.",
         technique="Lean 4 proof (fold invariant over the shadow-block list) + differential correspondence against nanoc",
         design="6/C06"),
+    "C07": dict(
+        text=("Lean 4 theorem over a model of the expression parser (parse_expression / parse_primary / parse_prefix_op / the postfix chain, "
+              "with the recursion guard), unbounded: every valid spelling of an expression tree over the 13 binary and 2 unary operators, "
+              "literals, variables, field accesses and calls - each operator node written in prefix or in infix form, any mix, any operator "
+              "sequence, any nesting the guard admits - is parsed to exactly the tree it denotes (spelling_parses, mutual induction over "
+              "styled trees); hence an infix spelling and the fully parenthesised prefix spelling give the same AST (infix_eq_prefix) and the "
+              "same bytecode (same_bytecode: the generator is a function of the tree). The side conditions are the language's own rules and "
+              "each is exhibited on the model ('( - a + b)' is the prefix form, '(f a -b)' a subtraction, '-y.f' is -(y.f)); upper-case "
+              "identifiers before '<' are excluded and reported as known finding F-C07-2. Tie: lexer, parser and code-generator models run on "
+              "both spellings of every generated program and must reproduce the file nano_virt --emit-nvm writes byte for byte; oracle on the "
+              "implementation: the two spellings compile to identical files and run alike (all 169 operator pairs in both nestings, random "
+              "typed trees, 300-level chains, 2400 unary operators in one file)."),
+        note=TB + " The theorem is stated for all sufficiently large fuel (fuel exists only in the Lean definitions; the runs count zero fuel exhaustions). Modelled, not verified: the parser of statements/types outside the fragment answers 'unsupported'; cond/if/match expressions, struct literals as operands, tuples are outside the theorem (covered by correspondence where the generator produces them).",
+        technique="Lean 4 proof (mutual well-founded induction over styled expression trees, continuation-style lemmas for the postfix and infix loops) + translator (token enum, keyword table, infix operator set, recursion limit) + byte-for-byte differential correspondence",
+        design="6/C07"),
     "C08": dict(
         text=("Lean 4 theorems for every array length and every 64-bit index: on each engine's range test an element is produced only for an "
               "index in [0, len) and it is the element at that index, everything else stops (oob_stops); 2^32+k and negative indices are "
